@@ -205,7 +205,15 @@ class Gfa(Lines,GraphOperations,RGFA):
                               "Parsing file {}".format(filename)+
                               " containing {} lines".format(linecount))
     with open(filename) as f:
-      for line in f:
+      lines = iter(f)
+      while True:
+        try:
+          line = next(lines)
+        except StopIteration:
+          break
+        except UnicodeDecodeError as err:
+          raise gfapy.FormatError(
+            "File {} cannot be decoded as text: {}".format(filename, err))
         self.add_line(line.rstrip('\r\n'))
         if self._progress:
           self._progress_log("read_file")
